@@ -236,6 +236,11 @@ func GenGraph(r *rand.Rand, o GraphOpts) *Graph {
 				p.UIDs = append(p.UIDs, "not-a-uuid")
 			}
 		}
+		if o.UIDProb > 0 && len(p.UIDs) == 0 && r.IntN(7) == 0 {
+			// an identifier that is not a UUID, and nothing else: the record
+			// number of some other program. It identifies nobody.
+			p.UIDs = append(p.UIDs, fmt.Sprintf("REC-%06d", r.IntN(1000000)))
+		}
 		if o.Notes && r.IntN(4) == 0 {
 			p.Lines = append(p.Lines, "1 NOTE "+pick(r, []string{"A note", "See also @I1@", "x < y & z", "", "50% off"}))
 		}
